@@ -14,6 +14,9 @@ use tokio::time::{self, Duration, Instant, MissedTickBehavior};
 use tracing::{field, info_span};
 
 static SESSION_COUNTER: std::sync::atomic::AtomicU64 = std::sync::atomic::AtomicU64::new(1);
+
+/// Largest payload one frame can carry (16-bit length field)
+const MAX_FRAME_PAYLOAD: usize = u16::MAX as usize;
 use tokio_util::codec::Decoder;
 
 /// Type alias for new stream callback channel
@@ -834,6 +837,13 @@ impl Session {
             stream_id,
             data.len()
         );
+        // One frame carries at most 65535 payload bytes: a larger chunk goes out as
+        // consecutive PSH frames of the same stream, in order
+        let mut data = data;
+        while data.len() > MAX_FRAME_PAYLOAD {
+            let head = data.split_to(MAX_FRAME_PAYLOAD);
+            self.write_frame(Frame::data(stream_id, head)).await?;
+        }
         let frame = Frame::data(stream_id, data);
         self.write_frame(frame).await
     }
